@@ -28,7 +28,7 @@ theorem step_facts_commitResume (env : Env) (s : Sys) (hi : Inv s) (i : Nat) (p 
       · rw [hu2] at h2; simp at h2
     subst hx; subst hd
     have ha : ackOf s (.cresume i) (.commit (.err e)) = none := by simp [ackOf]
-    refine ⟨⟨hi.disk, ?_, ?_⟩, by intro l c h; rw [ha] at h; simp at h, fun _ => rfl, fun _ _ => rfl⟩
+    refine ⟨⟨hi.disk, ?_, ?_⟩, by intro l c h; rw [ha] at h; simp at h, by intro l c i p h; rw [ha] at h; simp at h, fun _ => rfl, fun _ _ => rfl⟩
     · intro j; simp only; split
       · exact hup
       · exact hi.up j
@@ -43,7 +43,7 @@ theorem step_facts_commitResume (env : Env) (s : Sys) (hi : Inv s) (i : Nat) (p 
       rw [hu1] at h1
       subst hx; subst h1
       have hroot := hi.root_of_lock i h3
-      refine ⟨⟨?_, ?_, ?_⟩, ?_, ?_, ?_⟩
+      refine ⟨⟨?_, ?_, ?_⟩, ?_, ?_, ?_, ?_⟩
       · intro m hm; simp at hm; subst hm; exact ⟨hnwf, hnl⟩
       · intro j; simp only; split
         · exact hnwf
@@ -54,7 +54,11 @@ theorem step_facts_commitResume (env : Env) (s : Sys) (hi : Inv s) (i : Nat) (p 
       · intro l c' h
         simp [ackOf, hp] at h
         obtain ⟨rfl, rfl⟩ := h
-        exact ⟨by rw [hroot, hlast], by simp [Disk.root, hnr]⟩
+        exact ⟨by simp [Disk.root, hnr], Or.inl (by rw [hroot, hlast])⟩
+      · intro l c' i' p' h _ _ _
+        simp [ackOf, hp] at h
+        obtain ⟨rfl, rfl⟩ := h
+        rw [hroot, hlast]
       · intro h; simp [ackOf, hp] at h
       · intro h; simp [ackOf, hp] at h
   | stale up =>
@@ -62,13 +66,37 @@ theorem step_facts_commitResume (env : Env) (s : Sys) (hi : Inv s) (i : Nat) (p 
     obtain ⟨hm, hd⟩ := update_stale s.disk _ _ up hu2
     rw [hu1] at hd; subst hd
     have hupwf := (hi.disk up hm).1
+    by_cases hsame : up.lock == p.new.lock
+    · simp only [hsame, if_true] at hx
+      subst hx
+      have hle : up.lock = p.new.lock := by simpa using hsame
+      have hrc : s.disk.root = p.cur := by
+        simp only [Disk.root, hm]; rw [← hnr]; exact Contents.WF.root_eq hupwf hnwf hle
+      refine ⟨⟨hi.disk, ?_, ?_⟩, ?_, ?_, ?_, ?_⟩
+      · intro j; simp only; split
+        · exact hnwf
+        · exact hi.up j
+      · intro j q; simp only; split
+        · intro h; simp [Handle.flatten] at h
+        · exact hi.pc j q
+      · intro l c' h
+        simp [ackOf, hp] at h
+        obtain ⟨rfl, rfl⟩ := h
+        exact ⟨hrc, Or.inr ⟨hrc, rfl⟩⟩
+      · intro l c' i' p' h hop hp' hne
+        simp at hop; subst hop
+        rw [hp] at hp'; simp at hp'; subst hp'
+        exact absurd (by simp [Disk.lock, hm, hle]) hne
+      · intro h; simp [ackOf, hp] at h
+      · intro h; simp [ackOf, hp] at h
+    simp only [hsame, Bool.false_eq_true, if_false] at hx
     by_cases hco : canOpen s.disk { s.hs i with pc := none } up.specs
     · simp only [hco, Bool.not_true, Bool.false_eq_true, if_false] at hx
       by_cases hl : p.last != up.root
       · simp only [hl, if_true] at hx
         subst hx
         have ha : ackOf s (.cresume i) (.commit (.ok false)) = none := by simp [ackOf]
-        refine ⟨⟨hi.disk, ?_, ?_⟩, by intro l c h; rw [ha] at h; simp at h, fun _ => rfl, fun _ _ => rfl⟩
+        refine ⟨⟨hi.disk, ?_, ?_⟩, by intro l c h; rw [ha] at h; simp at h, by intro l c i p h; rw [ha] at h; simp at h, fun _ => rfl, fun _ _ => rfl⟩
         · intro j; simp only; split
           · exact hupwf
           · exact hi.up j
@@ -89,7 +117,7 @@ theorem step_facts_commitResume (env : Env) (s : Sys) (hi : Inv s) (i : Nat) (p 
           split
           · rename_i heq; simp at heq; exact absurd heq hne
           · rfl
-        refine ⟨⟨hi.disk, ?_, ?_⟩, by intro l c h; rw [ha] at h; simp at h, fun _ => rfl, fun _ _ => rfl⟩
+        refine ⟨⟨hi.disk, ?_, ?_⟩, by intro l c h; rw [ha] at h; simp at h, by intro l c i p h; rw [ha] at h; simp at h, fun _ => rfl, fun _ _ => rfl⟩
         · intro j; simp only; split
           · exact w1
           · exact hi.up j
@@ -99,7 +127,7 @@ theorem step_facts_commitResume (env : Env) (s : Sys) (hi : Inv s) (i : Nat) (p 
     · simp only [hco, Bool.not_false, if_true] at hx
       subst hx
       have ha : ackOf s (.cresume i) (.commit (.err .tableNotFound)) = none := by simp [ackOf]
-      refine ⟨⟨hi.disk, ?_, ?_⟩, by intro l c h; rw [ha] at h; simp at h, fun _ => rfl, fun _ _ => rfl⟩
+      refine ⟨⟨hi.disk, ?_, ?_⟩, by intro l c h; rw [ha] at h; simp at h, by intro l c i p h; rw [ha] at h; simp at h, fun _ => rfl, fun _ _ => rfl⟩
       · intro j; simp only; split
         · exact hup
         · exact hi.up j
@@ -119,7 +147,7 @@ theorem addTables_facts (env : Env) (s : Sys) (hi : Inv s) (i : Nat) (ts : List 
       h'.upstream.WF → h'.pc = none →
       StepFacts s { disk := d', hs := fun j => if j = i then h' else s.hs j } (.addTables i ts) r := by
     intro d' h' hd hw hp
-    refine ⟨⟨?_, ?_, ?_⟩, by intro l c h; rw [ha] at h; simp at h, ?_, by intro _ h; simp [Op.isAddTables] at h⟩
+    refine ⟨⟨?_, ?_, ?_⟩, by intro l c h; rw [ha] at h; simp at h, by intro l c i p h; rw [ha] at h; simp at h, ?_, by intro _ h; simp [Op.isAddTables] at h⟩
     · intro m hm
       rcases hd with e | ⟨n, e, w, l, _⟩
       · exact hi.disk m (by rw [← e]; exact hm)
@@ -272,7 +300,7 @@ theorem step_facts (env : Env) (s : Sys) (hi : Inv s) (op : Op) :
     simp only [Sys.step]
     split
     · exact facts_refl hi _ _ (ha _)
-    · exact ⟨⟨hi.disk, hi.up, hi.pc⟩, by intro l c h; rw [ha] at h; simp at h, fun _ => rfl, fun _ _ => rfl⟩
+    · exact ⟨⟨hi.disk, hi.up, hi.pc⟩, by intro l c h; rw [ha] at h; simp at h, by intro l c i p h; rw [ha] at h; simp at h, fun _ => rfl, fun _ _ => rfl⟩
   | addTables i ts =>
     simp only [Sys.step]
     split
@@ -308,7 +336,11 @@ theorem next_facts (env : Env) (s : Sys) (hi : Inv s) (op : Op) :
   have hh := next_hs env s op
   rw [next_resp]
   exact ⟨inv_congr hm hh f.inv,
-    fun l c h => ⟨(f.ack l c h).1, by rw [root_congr hm]; exact (f.ack l c h).2⟩,
+    fun l c h => ⟨by rw [root_congr hm]; exact (f.ack l c h).1, by
+      rcases (f.ack l c h).2 with e | ⟨e1, e2⟩
+      · exact Or.inl e
+      · exact Or.inr ⟨e1, by rw [hm]; exact e2⟩⟩,
+    fun l c i p h h1 h2 h3 => f.strict l c i p h h1 h2 h3,
     fun h => by rw [root_congr hm]; exact f.noack h,
     fun h h2 => by rw [hm]; exact f.manifest h h2⟩
 
